@@ -58,8 +58,16 @@ func init() {
 	}
 	opaqueHandlers["fnv.Sum64"] = func(w *Worker, s *State, op OpaqueV, args []Value) Value {
 		var ts []*Term
+		// FNV is a function of the byte stream, not of how it was cut into Write calls:
+		// adjacent concrete pieces are joined, so Write("ab"),Write("c") and Write("a"),Write("bc")
+		// give the same term (symbolic pieces stay separate, which can only make hashes look more different)
 		for _, v := range op.X.(Ptr).O.Val.(TupleV) {
-			ts = append(ts, v.(*Term))
+			t := v.(*Term)
+			if n := len(ts); n > 0 && t.Const && ts[n-1].Const {
+				ts[n-1] = w.tc.Str(ts[n-1].S + t.S)
+				continue
+			}
+			ts = append(ts, t)
 		}
 		return w.tc.UF("fnv64a", bv(64), ts...)
 	}
